@@ -48,6 +48,8 @@ def fleet_subjects(tier, c14=False):
     out = [S("fleet", 2, live=2, delay=2, transit=1, drain=1, age_cap=5, grid=1)]
     if c14:
         out.append(S("fleet", 3, live=1, delay=2, transit=1, drain=1, age_cap=5, grid=1))
+        out.append(S("fleet", 3, live=1, delay=1, transit=1, drain=1, age_cap=4, grid=1))     # overlapping trips, 3 items
+        out.append(S("fleet", 2, live=2, delay=2, transit=1, drain=1, age_cap=5, grid=1, notime=1))   # two waiting retrievals
         out.append(S("fleet", 2, live=1, delay=1, transit=1, drain=1, age_cap=4, grid=0.5))
         out.append(S("fleet", 2, live=1, delay=2, transit=0, drain=1, age_cap=3, grid=1))
         out.append(S("fleet", 2, live=1, delay=3, transit=0.5, drain=1, age_cap=5, grid=0.5))
@@ -175,14 +177,14 @@ def jobs_for(prop, tier):
 F_FAMILIES = {
     "C01": ["lines", "congestion", "diamonds", "conveyors", "combiners"],
     "C06": ["diamonds", "fans", "splitters", "conveyors"],
-    "C03": ["lines", "congestion", "diamonds", "combiners", "splitters", "conveyors", "draining"],
+    "C03": ["lines", "congestion", "diamonds", "combiners", "splitters", "conveyors", "draining", "nonblocking_fleet", "fleet_dense"],
     "C08": ["lines", "congestion", "diamonds", "combiners", "splitters", "conveyors"],
-    "C09": ["lines", "congestion", "fans", "combiners", "splitters"],
-    "C10": ["lines", "congestion", "diamonds", "fans", "combiners", "splitters", "conveyors", "draining"],
+    "C09": ["lines", "congestion", "fans", "combiners", "splitters", "nonblocking_fleet"],
+    "C10": ["lines", "congestion", "diamonds", "fans", "combiners", "splitters", "conveyors", "draining", "nonblocking_fleet", "fleet_dense"],
     "C15": ["diamonds", "fans", "combiners", "splitters", "invalid_indices"],
     "C16": ["combiners", "splitters"],
     "C17": ["lines", "congestion", "diamonds", "splitters", "combiners", "conveyors"],
-    "C18": ["lines", "congestion", "diamonds", "combiners", "splitters", "conveyors"],
+    "C18": ["lines", "congestion", "diamonds", "combiners", "splitters", "conveyors", "nonblocking_fleet", "fleet_dense"],
     "C20": ["lines", "congestion", "diamonds", "fans", "combiners", "splitters", "conveyors", "invalid", "c20_extra"],
 }
 
